@@ -38,7 +38,7 @@ func init() {
 		Run: func(tier string, seed uint64, idx int) core.Result {
 			return runElections("C05", "C05.elections", tier, seed, idx)
 		},
-		Rule: "the real coordinator ShardController (status resource included) over a harness-owned metadata store and coordination-RPC layer, 5 real storage nodes (RF 3, 2 spares); seeded schedules of 10..18 steps: client writes with a stalled follower (heads differ), true and false leader-failure notifications, node swaps, process crashes/restarts of nodes (also right after a node answered NewTerm, i.e. between NewTerm and BecomeLeader), coordinator deaths at chosen points (before/after the k-th metadata write, at the send or after the execution of the k-th NewTerm/BecomeLeader/AddFollower) followed by a restart from the stored metadata, requests and responses lost or delayed per message (fault level 0..100), ghosts = exact re-deliveries of earlier requests; " +
+		Rule: "the real coordinator ShardController (status resource included) over a harness-owned metadata store and coordination-RPC layer, real storage nodes (RF 3 or, one case in four, RF 5; 2 spares); seeded schedules of 10..18 steps: client writes with a stalled follower (heads differ), true and false leader-failure notifications, node swaps, process crashes/restarts of nodes (also right after a node answered NewTerm, i.e. between NewTerm and BecomeLeader), coordinator deaths at chosen points (before/after the k-th metadata write, at the send or after the execution of the k-th NewTerm/BecomeLeader/AddFollower) followed by a restart from the stored metadata, requests and responses lost or delayed per message (fault level 0..100), ghosts = exact re-deliveries of earlier requests; " +
 			"online oracle, evaluated under the harness lock in record order: (durable-first) every term carried by a request is <= the term in the metadata store at send time; (no reuse) an incarnation never sends NewTerm with a term <= one sent by an earlier incarnation; stored terms never decrease; (one leader per term) BecomeLeader of a term goes to one node only, at most one node ever answers BecomeLeader OK or reports LEADER for a term, stored leader of a term is unique; (majority, best log) at BecomeLeader send: the target and every follower-map entry are members of the stored ensemble that answered NewTerm of that term to this incarnation, with exactly the heads they answered, these are a majority of the stored ensemble, and the target's (term,offset) head is >= every follower-map head; (node terms) a node never answers OK to a NewTerm below one it answered before, the term it reports never drops below one it acknowledged earlier (restarts and crash images included), and the flushed database image at a NewTerm answer already holds that term; a node answers BecomeLeader OK only in a term whose NewTerm it answered; " +
 			"non-trivial = >= 3 BecomeLeader decisions checked and >= 1 coordinator death or swap; distinct = (fault level, record trace)",
 		MinNontrivial:    func(tier string) int { return tierN(tier, 25, 1000) },
@@ -538,12 +538,17 @@ func newSched(prop string, r *core.R, rng *rand.Rand, silentMon bool) (*sched, f
 	if err != nil {
 		return nil, nil, err
 	}
-	c, err := rc.New(dir, 5, 1<<16, true)
+	// RF 3 with 2 spare nodes; one case in four RF 5 with 2 spares
+	rf := 3
+	if rng.IntN(4) == 0 {
+		rf = 5
+	}
+	c, err := rc.New(dir, rf+2, 1<<16, true)
 	if err != nil {
 		os.RemoveAll(dir)
 		return nil, nil, err
 	}
-	h := ctl.New(c, 3, rng.Uint64())
+	h := ctl.New(c, rf, rng.Uint64())
 	m := newMon(prop, r, h)
 	m.silent = silentMon
 	h.Observe(m.observe)
